@@ -20,6 +20,7 @@ import (
 	"github.com/cnotch/ipchub/media/cache"
 	"github.com/cnotch/ipchub/stats"
 	"github.com/cnotch/ipchub/utils"
+	"github.com/cnotch/ipchub/utils/verifhook"
 	"github.com/cnotch/queue"
 	"github.com/cnotch/xlog"
 )
@@ -177,6 +178,7 @@ func (s *Stream) close(status int32) error {
 		status = StreamClosed
 	}
 	atomic.StoreInt32(&s.status, status)
+	verifhook.Point("stream.close.status", 0)
 
 	// 关闭 hls
 	if s.tsMuxer != nil {
@@ -208,6 +210,7 @@ func (s *Stream) WriteRtpPacket(packet *rtp.Packet) error {
 	atomic.AddUint64(&s.size, uint64(packet.Size()))
 
 	keyframe := s.cache.CachePack(packet)
+	verifhook.Point("stream.write.cached", 0)
 	s.consumptions.SendToAll(packet, keyframe)
 
 	s.rtpDemuxer.WriteRtpPacket(packet)
@@ -235,6 +238,7 @@ func (s *Stream) WriteFlvTag(tag *flv.Tag) error {
 	}
 
 	keyframe := s.flvCache.CachePack(tag)
+	verifhook.Point("stream.writeflv.cached", 0)
 	s.flvConsumptions.SendToAll(tag, keyframe)
 	return nil
 }
@@ -281,7 +285,9 @@ func (s *Stream) startConsume(consumer Consumer, packetType PacketType, extra st
 	if useGopCache {
 		c.sendGop(cache) // 新消费者，先发送gop缓存
 	}
+	verifhook.Point("stream.join.snapshotted", uint32(c.cid))
 	cs.Add(c)
+	verifhook.Point("stream.join.added", uint32(c.cid))
 
 	go c.consume()
 	return c.cid
